@@ -1,9 +1,9 @@
 package harness
 
 import (
-	"strings"
 	"context"
 	"fmt"
+	"strings"
 	"time"
 
 	"verif/vclock"
@@ -62,7 +62,13 @@ func c04Post(h *fh) {
 		}
 	}
 
-	vclock.Advance(2 * time.Hour) // everything stored so far is expired beyond MaxStaleness, cached failures are gone
+	if h.cfg.BUnl {
+		// the backend never expires anything on its own: only Failover's own lifetimes (UpdateTTL of the re-stored stale
+		// copy, FailedUpdateTTL of the remembered failure) can make the key buildable again - and they must
+		vclock.Advance(updateTTL + failedTTL + 2*time.Second)
+	} else {
+		vclock.Advance(2 * time.Hour) // everything stored so far is expired beyond MaxStaleness, cached failures are gone
+	}
 	h.cfg.Script = "o"
 	h.cfg.Faults = false // the confirmation phase itself runs fault-free
 
@@ -206,6 +212,14 @@ func c04Cells(tier string) []Cell {
 							}
 
 							cells = append(cells, Cell{ID: c.ID()})
+
+							// a backend that never expires entries by itself, and an update that fails: after UpdateTTL and
+							// FailedUpdateTTL the key must be buildable again
+							if pi == 3 && !faults && sc == "f" && init != "F" && cfgBits&0x18 == 0x08 {
+								u := c
+								u.BUnl = true
+								cells = append(cells, Cell{ID: u.ID()})
+							}
 
 							// the backend has been walked by somebody who gave up half-way (a dump to a broken connection):
 							// the Gets that follow must complete all the same
